@@ -2032,11 +2032,15 @@ fn check_mirror(schema: &st::S, sch: &Sch) -> Result<(), String> {
                      inputFields{ name defaultValue type{kind name ofType{kind name ofType{kind name ofType{kind name}}}} } enumValues{name} possibleTypes{name} interfaces{name} } \
              directives { name locations isRepeatable args{ name type{kind name ofType{kind name}} } } } }";
     let r = vcore::det::block_on(schema.execute(q));
-    if !r.errors.is_empty() {
-        return Err(format!("introspection failed: {:?}", r.errors));
-    }
-    let j = r.data.into_json().map_err(|e| e.to_string())?;
+    let j = r.data.clone().into_json().map_err(|e| e.to_string())?;
     let sc = &j["__schema"];
+    if !r.errors.is_empty() || !sc.is_object() {
+        // the introspection request is itself a request of the property's domain
+        let doc = vgql::refparse::parse_executable(q, &vgql::refparse::Opts::default()).map_err(|e| e.msg)?;
+        let no_vars = IndexMap::new();
+        let spec = validate_full(&Input { sch, doc: &doc, op_name: None, vars: &no_vars, non_executable_defs: 0, custom_scalar_ok: &custom_scalar_ok }, Quirks::default());
+        return Err(format!("{}the introspection request ({}) was answered with errors {:?} and data {}", if spec.is_valid() { "VALID-REJECTED: " } else { "" }, q, r.errors.iter().map(|e| e.message.clone()).collect::<Vec<_>>(), j));
+    }
     if sc["queryType"]["name"].as_str() != Some(&sch.query) || sc["mutationType"]["name"].as_str() != sch.mutation.as_deref() || sc["subscriptionType"]["name"].as_str() != sch.subscription.as_deref() {
         return Err("root types differ".into());
     }
@@ -2141,7 +2145,13 @@ pub fn run(ctx: &mut Ctx) {
         }
     };
     if let Err(e) = check_mirror(&schema, &static_sch) {
-        ctx.inconclusive(format!("HARNESS: static schema mirror: {}", e));
+        match e.strip_prefix("VALID-REJECTED: ") {
+            // valid by the reference validator, not executed: a violation of the property, not a harness problem
+            Some(why) => {
+                ctx.check_case("mirror", Case::fail(why, "a valid request was not executed cleanly"), serde_json::Value::Null);
+            }
+            None => ctx.inconclusive(format!("HARNESS: static schema mirror: {}", e)),
+        }
         return;
     }
 
